@@ -30,6 +30,8 @@ type c10Batch struct {
 	Rows    []c10Row `json:"rows"`
 	PauseMs int      `json:"pause_ms"` // pause before this batch
 	Empty   bool     `json:"empty,omitempty"` // an empty batch: a request that buffers nothing
+	NilDone bool     `json:"nil_done,omitempty"` // fire-and-forget: no done channel (judged by visibility)
+	Reject  bool     `json:"reject,omitempty"`   // a batch the engine rejects as a whole (unserializable row)
 }
 
 type c10Case struct {
@@ -51,7 +53,7 @@ func genC10() *rapid.Generator[c10Case] {
 	return rapid.Custom(func(t *rapid.T) c10Case {
 		far, farB := 1<<20, 1<<30
 		c := c10Case{Comp: pick(t, "comp", []string{"snappy", "none", "zstd"}), Parts: pick(t, "parts", []int{0, 2, 5})}
-		mode := pick(t, "mode", []string{"mixed", "binding", "binding", "trickle"})
+		mode := pick(t, "mode", []string{"mixed", "binding", "binding", "trickle", "fireforget"})
 		c.Mode = mode
 		switch mode {
 		case "mixed":
@@ -80,6 +82,27 @@ func genC10() *rapid.Generator[c10Case] {
 				c.Parts = pick(t, "rgparts", []int{2, 3, 5})
 				c.Skew = true
 			}
+		case "fireforget":
+			// only the clock can flush; some batches carry no done channel and some
+			// requests are rejected as a whole (they buffer nothing) before the engine
+			// goes idle: the rows buffered earlier still have to become durable
+			c.BufRows, c.BufBytes, c.RGRows, c.RGBytes = far, farB, far, farB
+			c.BufTimeMs = pick(t, "fftime", []int{150, 300})
+			nb := rapid.IntRange(1, 4).Draw(t, "ffbatches")
+			for i := 0; i < nb; i++ {
+				b := c10Batch{PauseMs: pick(t, "ffpause", []int{0, 0, 5, 30}), NilDone: chance(t, "nildone", 75)}
+				k := rapid.IntRange(1, 3).Draw(t, "ffrows")
+				for j := 0; j < k; j++ {
+					b.Rows = append(b.Rows, c10Row{Part: unif(t, "part", 5), Pad: pick(t, "pad", []int{0, 40, 200})})
+				}
+				c.Batches = append(c.Batches, b)
+				if i == nb-1 || chance(t, "ffreject", 40) {
+					for r := rapid.IntRange(1, 2).Draw(t, "nreject"); r > 0; r-- {
+						c.Batches = append(c.Batches, c10Batch{PauseMs: pick(t, "ffpause", []int{0, 5, 30}), Reject: true})
+					}
+				}
+			}
+			return c
 		default: // trickle: only the time limit can fire, requests keep arriving inside every window
 			c.BufRows, c.BufBytes, c.RGRows, c.RGBytes = far, farB, far, farB
 			c.BufTimeMs = pick(t, "ttime", []int{300, 400})
@@ -239,6 +262,62 @@ func runC10Once(c c10Case) (*Violation, bool, bool) {
 	const allowance = 1500 * time.Millisecond
 	timeBound := time.Duration(c.BufTimeMs)*time.Millisecond + 100*time.Millisecond + allowance
 
+	if c.Mode == "fireforget" {
+		want := map[int]bool{}
+		ffid := 100000
+		var last time.Time
+		for _, bt := range c.Batches {
+			time.Sleep(time.Duration(bt.PauseMs) * time.Millisecond)
+			if bt.Reject {
+				rb := book.NewBatch("bad", "unbuf", 2, 1)
+				if err := eng.IngestRows(bg, rb.Rows, rb.Ch); err != nil {
+					return violf("IngestRows(rejected batch): %v", err), false, false
+				}
+				continue
+			}
+			ck := "unbuf"
+			if bt.NilDone {
+				ck = "nil"
+			}
+			b := book.NewBatch("good", ck, 0, 1)
+			for _, r := range bt.Rows {
+				ffid++
+				row := map[string]any{"id": ffid, "p": partOf(r)}
+				if r.Pad > 0 {
+					row["pad"] = strings.Repeat("x", r.Pad)
+				}
+				b.Rows = append(b.Rows, row)
+				want[ffid] = true
+			}
+			if err := eng.IngestRows(bg, b.Rows, b.Ch); err != nil {
+				return violf("IngestRows: %v", err), false, false
+			}
+			last = time.Now()
+		}
+		// idle now; no Flush, no Stop: every accepted row has to become visible
+		deadline := last.Add(timeBound)
+		for {
+			late := time.Now().After(deadline)
+			vis, err := visibleIDs(eng)
+			if err != nil {
+				return violf("match-all query: %v", err), false, false
+			}
+			missing := []int{}
+			for id := range want {
+				if vis[id] == 0 {
+					missing = append(missing, id)
+				}
+			}
+			if len(missing) == 0 {
+				return nil, false, true
+			}
+			if late {
+				sort.Ints(missing)
+				return violf("rows %v of accepted batches (fire-and-forget: %v) are still not stored %v after the last accepted batch: MaxBufferedTime %d ms + 100 ms tick + %v allowance exceeded, no Flush/Stop called; the script has rejected batches between and after them", missing, c.Batches[0].NilDone, time.Since(last).Round(time.Millisecond), c.BufTimeMs, allowance), true, false
+			}
+			time.Sleep(40 * time.Millisecond)
+		}
+	}
 	m := newC10Model()
 	id := 0
 	nonTimeMulti, timeMulti := false, false
@@ -403,7 +482,7 @@ func runC10(c c10Case) *Violation {
 }
 
 func TestC10(t *testing.T) {
-	Ev.Rule = "case = limit settings (MaxBufferedRows/Bytes, MaxRowGroupRows/Bytes each either out of reach or small; MaxBufferedTime 1h or 60-400 ms; none/snappy/zstd; 0/2/5 partitions) x 1-7 batches of 1-5 rows (rows of 20 B to 3 KB spread over partitions) with 0-120 ms pauses; generator modes: mixed limits, exactly one binding limit (the others out of reach, 2-10 batches), and a trickle (only MaxBufferedTime 300-400 ms can fire; 13-18 small or empty batches arriving every 0.55-0.85 of the window, or a hum of empty requests every 30-80 ms for longer than the limit plus the allowance); done channels are unbuffered with live receivers that stamp the wall-clock time of the answer; responsive in-memory stores; Flush and Stop are not called while obligations are open. A model of the buffer (rows, marshaled bytes without prefixes, per-partition rows/bytes; reset whenever an ack shows a flush happened) says when a limit is certainly reached: every buffered batch must then be answered within 1.5 s; with MaxBufferedTime configured every batch must be answered within MaxBufferedTime + 100 ms tick + 1.5 s of ITS OWN acceptance (measured on the answer's receive time). Timing verdicts need two further reproductions. Non-trivial: a non-time trigger fired on a buffer holding a multi-partition batch, or a time flush covered >=2 batches; distinct by case."
+	Ev.Rule = "case = limit settings (MaxBufferedRows/Bytes, MaxRowGroupRows/Bytes each either out of reach or small; MaxBufferedTime 1h or 60-400 ms; none/snappy/zstd; 0/2/5 partitions) x 1-7 batches of 1-5 rows (rows of 20 B to 3 KB spread over partitions) with 0-120 ms pauses; generator modes: mixed limits, exactly one binding limit (the others out of reach, 2-10 batches), and a trickle (only MaxBufferedTime 300-400 ms can fire; 13-18 small or empty batches arriving every 0.55-0.85 of the window, or a hum of empty requests every 30-80 ms for longer than the limit plus the allowance), and fire-and-forget (only MaxBufferedTime 150-300 ms can fire; 1-4 batches, 75% of them without a done channel, with 1-2 wholly rejected batches (unserializable row) after the last and between them; then idle: every accepted row must be visible to a match-all query on the same engine within the same time bound); done channels are unbuffered with live receivers that stamp the wall-clock time of the answer; responsive in-memory stores; Flush and Stop are not called while obligations are open. A model of the buffer (rows, marshaled bytes without prefixes, per-partition rows/bytes; reset whenever an ack shows a flush happened) says when a limit is certainly reached: every buffered batch must then be answered within 1.5 s; with MaxBufferedTime configured every batch must be answered within MaxBufferedTime + 100 ms tick + 1.5 s of ITS OWN acceptance (measured on the answer's receive time). Timing verdicts need two further reproductions. Non-trivial: a non-time trigger fired on a buffer holding a multi-partition batch, or a time flush covered >=2 batches; distinct by case."
 	Ev.Assumptions = []string{"'immediately' is judged with a 1.5 s allowance", "byte obligations only when the marshaled bytes without length prefixes already reach the limit"}
 	runChecks(t, "limits", 100, 2500, genC10(), runC10)
 }
